@@ -193,7 +193,7 @@ def plan(tier, seed, scale):
     for i in range(K):
         tasks.append({"name": "exh-listops-%d" % i, "kind": "exh", "n": 3 if tier == "quick" else 4,
                       "i": i, "k": K, "list_ops": True, "only_list": True})
-    total = int((20000 if tier == "quick" else 300000) * scale)
+    total = int((20000 if tier == "quick" else 200000) * scale)
     for i in range(K):
         tasks.append({"name": "rand-%d" % i, "kind": "rand", "n": max(total // K, 10),
                       "depth": 4 if tier == "quick" else 6, "shard": i})
